@@ -3,7 +3,8 @@ from ._enga import run_slice_mon, replay_mon, sizes
 
 PROP = "C03"
 HEADLINE = ["c03_steps_checked", "c03_slots_matched", "c03_persistent_slots", "c03_event_slots",
-            "c03_init_slots", "c03_collapsed", "c03_tolerated_none", "runs_profile_data_flat", "runs_profile_flat"]
+            "c03_init_slots", "c03_collapsed", "c03_tolerated_none", "c03_persistent_slots_value_announced_for_later_time",
+            "runs_profile_data_flat", "runs_profile_flat"]
 
 
 def plan(tier, seed, scale):
@@ -32,7 +33,7 @@ def decide(m, tier):
     c = m["counters"]
     reasons = []
     for k, n in (("c03_persistent_slots", 2000), ("c03_event_slots", 2000), ("c03_init_slots", 300),
-                 ("c03_collapsed", 20)):
+                 ("c03_collapsed", 20), ("c03_persistent_slots_value_announced_for_later_time", 100)):
         if c.get(k, 0) < n:
             reasons.append(f"{k} < {n}")
     if c.get("runs_cache_on", 0) < 100 or c.get("runs_cache_off", 0) < 100:
